@@ -154,7 +154,14 @@ async fn frame_case(server: SocketAddr, max: u64, declared: u64) -> Outcome {
 /// `stall`: the client waits this long after connecting before it starts the login, so a cookie that
 /// was young enough when the connection opened is too old when it is presented.
 async fn cookie_case(server: SocketAddr, spec_secret: &str, expiry: u64, age: i64, own_secret: bool, seed: u64, stall: Duration) -> Outcome {
-    let class = format!("cookie/expiry-{expiry}/age-{age}{}/{}", if stall.is_zero() { String::new() } else { format!("+stall-{}s", stall.as_secs_f32()) }, if own_secret { "configured-secret" } else { "other-secret" });
+    cookie_case_keyed(server, spec_secret, expiry, age, own_secret, seed, stall, None).await
+}
+
+/// `related`: (name, key) - a secret that is related to the configured one (a line of it, the same
+/// text with or without its line break, a prefix) but is not the configured one.
+#[allow(clippy::too_many_arguments)]
+async fn cookie_case_keyed(server: SocketAddr, spec_secret: &str, expiry: u64, age: i64, own_secret: bool, seed: u64, stall: Duration, related: Option<(&'static str, Vec<u8>)>) -> Outcome {
+    let class = format!("cookie/expiry-{expiry}/age-{age}{}/{}", if stall.is_zero() { String::new() } else { format!("+stall-{}s", stall.as_secs_f32()) }, match (&related, own_secret) { (Some((n, _)), _) => format!("related-secret-{n}"), (None, true) => "configured-secret".to_string(), (None, false) => "other-secret".to_string() });
     let end = match TcpEnd::connect(server, None).await {
         Ok(e) => e,
         Err(e) => return Outcome { class, signature: None, detail: json!({}), inconclusive: Some(format!("connect failed: {e}")) },
@@ -168,7 +175,11 @@ async fn cookie_case(server: SocketAddr, spec_secret: &str, expiry: u64, age: i6
         "user_name": ident.name, "user_id": scripts::uuid_string(ident.uuid), "target": null, "profile_properties": [], "extra": {},
     }))
     .expect("json");
-    let secret = if own_secret { spec_secret.as_bytes().to_vec() } else { b"not the configured secret".to_vec() };
+    let secret = match &related {
+        Some((_, key)) => key.clone(),
+        None if own_secret => spec_secret.as_bytes().to_vec(),
+        None => b"not the configured secret".to_vec(),
+    };
     let payload = sign_cookie(&secret, &body);
     let mut plan = scripts::plan(
         vec![
@@ -201,6 +212,8 @@ async fn cookie_case(server: SocketAddr, spec_secret: &str, expiry: u64, age: i6
             ("fresh-cookie-under-configured-secret-rejected".to_string(), format!("a {age} s old cookie under the configured secret was rejected (auth_cookie_expiry = {expiry})"))
         } else if own_secret {
             ("expired-cookie-accepted".to_string(), format!("a {age} s old cookie was accepted although auth_cookie_expiry is {expiry}"))
+        } else if let Some((n, _)) = &related {
+            (format!("cookie-under-other-secret-accepted/{n}"), format!("a cookie signed with a secret that is related to the configured one ({n}) but is not it was accepted"))
         } else {
             ("cookie-under-other-secret-accepted".to_string(), "a cookie signed with another secret was accepted".to_string())
         }),
@@ -619,6 +632,29 @@ pub async fn run(cli: &Cli, report: &mut Report) {
                 let secret = spec.secret.clone();
                 let expiry = spec.expiry;
                 futures.push(Box::pin(async move { cookie_case(addr, &secret, expiry, age, own, seed, Duration::ZERO).await }));
+            }
+            // secrets that are close to the configured one: each of its lines, the text without or
+            // with a line break at the end, its first half. None of them is the configured secret
+            if age == 0 {
+                let full = spec.secret.as_bytes().to_vec();
+                let mut related: Vec<(&'static str, Vec<u8>)> = vec![];
+                for line in full.split(|b| *b == b'\n') {
+                    related.push(("one-of-its-lines", line.to_vec()));
+                }
+                related.push(("without-the-line-break-at-its-end", full.strip_suffix(b"\n").unwrap_or(&full).to_vec()));
+                related.push(("with-a-line-break-added", [full.as_slice(), b"\n"].concat()));
+                related.push(("its-first-half", full[..full.len() / 2].to_vec()));
+                related.push(("trimmed", spec.secret.trim().as_bytes().to_vec()));
+                // (a key that only differs by trailing zero bytes is the same HMAC key, and one longer than
+                // a block equals its digest: not offered)
+                related.retain(|(_, k)| *k != full && !(k.len() != full.len() && k.iter().chain(std::iter::repeat(&0u8)).zip(full.iter().chain(std::iter::repeat(&0u8))).take(k.len().max(full.len())).all(|(a, b)| a == b)));
+                related.dedup_by(|a, b| a.1 == b.1);
+                for rel in related {
+                    seed = seed.wrapping_add(1);
+                    let secret = spec.secret.clone();
+                    let expiry = spec.expiry;
+                    futures.push(Box::pin(async move { cookie_case_keyed(addr, &secret, expiry, 0, false, seed, Duration::ZERO, Some(rel)).await }));
+                }
             }
         }
         if !frames_only && !deadlines_only && spec.expiry == 5 && spec.timeout >= 8 && spec.max_packet_length >= 400 {
